@@ -514,6 +514,17 @@ func (e *SpecEnv) call(n *SCall) Val {
 	case "bigOf":
 		r := e.Eval(n.Args[0])
 		return Val{T: "(select " + x.getHeap(e.st, x.bigKey()) + " " + r.T + ")", S: "Int"}
+	case "iterVisited":
+		// badger iteration ghost state: keys already visited by the iterator
+		x.badgerKeys()
+		it := e.Eval(n.Args[0])
+		id := e.Eval(n.Args[1])
+		return Val{T: "(select (select " + x.getHeap(e.st, "badger.it.visited") + " " + it.T + ") " + id.T + ")", S: "Bool"}
+	case "iterKey":
+		x.badgerKeys()
+		it := e.Eval(n.Args[0])
+		t, ids := x.idSort()
+		return Val{T: "(select " + x.getHeap(e.st, "badger.it.cur") + " " + it.T + ")", S: ids, Ty: t}
 	case "errstr":
 		x.u.declSort("GoString")
 		x.need("errstr")
@@ -734,6 +745,7 @@ func (x *Exec) globalVar(o *types.Var) Val {
 	// package-level error sentinels are non-nil and pairwise distinct
 	if types.Identical(o.Type(), types.Universe.Lookup("error").Type()) {
 		x.u.fact("(> " + n + " 0)")
+		x.u.fact("(< " + n + " " + x.next0 + ")") // allocated before the function was entered
 		for oo, ov := range x.globals {
 			if types.Identical(oo.Type(), o.Type()) {
 				x.u.fact("(not (= " + n + " " + ov.T + "))")
